@@ -43,18 +43,18 @@ func rep(b byte, n int) []byte { return bytes.Repeat([]byte{b}, n) }
 
 // hostile varint spellings
 var (
-	vMax      = uv(math.MaxUint64)                 // 10 bytes, valid
-	vMaxInt   = uv(math.MaxInt64)                  // 9 bytes, int(v) > 0 but pos+int(v) overflows
-	vMinInt   = uv(1 << 63)                        // int(v) == MinInt64
-	vOver10   = append(rep(0xff, 9), 0x02)         // 10th byte > 1: overflow, n = -10
-	vOver11   = append(rep(0xff, 10), 0x01)        // 11 bytes: overflow, n = -11
-	vUnterm   = rep(0x80, 4)                       // unterminated
-	vNonMin   = []byte{0x80, 0x00}                 // non-minimal zero
-	vLen8M    = uv(8 << 20)                        // probe size
-	vLen1G    = uv(1 << 30)                        // dangerous when unchecked
-	vLen4Gm1  = uv(math.MaxUint32)                 //
-	vLenPeers = uv(1 << 19)                        // 512Ki peers * 16 B = 8 MiB
-	vLenTiB   = uv(1 << 40)                        // make() of this many 16-byte elements is fatal when unchecked
+	vMax      = uv(math.MaxUint64)          // 10 bytes, valid
+	vMaxInt   = uv(math.MaxInt64)           // 9 bytes, int(v) > 0 but pos+int(v) overflows
+	vMinInt   = uv(1 << 63)                 // int(v) == MinInt64
+	vOver10   = append(rep(0xff, 9), 0x02)  // 10th byte > 1: overflow, n = -10
+	vOver11   = append(rep(0xff, 10), 0x01) // 11 bytes: overflow, n = -11
+	vUnterm   = rep(0x80, 4)                // unterminated
+	vNonMin   = []byte{0x80, 0x00}          // non-minimal zero
+	vLen8M    = uv(8 << 20)                 // probe size
+	vLen1G    = uv(1 << 30)                 // dangerous when unchecked
+	vLen4Gm1  = uv(math.MaxUint32)          //
+	vLenPeers = uv(1 << 19)                 // 512Ki peers * 16 B = 8 MiB
+	vLenTiB   = uv(1 << 40)                 // make() of this many 16-byte elements is fatal when unchecked
 	hostileVs = [][]byte{vMax, vMaxInt, vMinInt, vOver10, vOver11, vUnterm, vNonMin, vLen8M, vLen1G, vLen4Gm1, vLenTiB}
 )
 
@@ -101,12 +101,12 @@ func entrySeeds() [][]byte {
 		mustEntry(ik, []byte("value"), 0, 0),
 		mustEntry(ik, rep('v', 200), kv.BitValuePointer, math.MaxUint64),
 		mustEntry(kv.InternalKey(kv.CFLock, nil, math.MaxUint64), nil, 0xff, 1),
-		cat(uv(8<<20, 0, 0, 0)),                 // probe: keyLen 8 MiB, no body
-		cat(uv(0, 8<<20, 0, 0), []byte{1, 2}),   // valueLen 8 MiB
-		cat(uv(1<<30, 0, 0, 0), []byte("abc")),  // 1 GiB key
+		cat(uv(8<<20, 0, 0, 0)),                // probe: keyLen 8 MiB, no body
+		cat(uv(0, 8<<20, 0, 0), []byte{1, 2}),  // valueLen 8 MiB
+		cat(uv(1<<30, 0, 0, 0), []byte("abc")), // 1 GiB key
 		cat(uv(math.MaxUint32, math.MaxUint32, 0, 0)),
 		cat(uv(1<<32, 1<<32+3, 0, 0), []byte("abc"), rep(0, 4)), // lengths truncated to uint32
-		cat(uv(3, 3, 256, 0)),                                        // meta overflow
+		cat(uv(3, 3, 256, 0)),                                   // meta overflow
 		cat(vOver10, vOver11),
 		cat(uv(1, 1), vMax, vMax),
 	}
@@ -456,17 +456,17 @@ func editPayloadSeeds() [][]byte {
 		s = append(s, mustEdit(e)[4:])
 	}
 	s = append(s,
-		cat(hdr(manifest.EditLogPointer), vOver11),                                    // pos += -11 -> negative index
-		cat(hdr(manifest.EditLogPointer), vOver10),                                    //
-		cat(hdr(manifest.EditAddFile), uv(1, 2, 3), vMax, []byte("x")),                // readBytes int(length) == -1
-		cat(hdr(manifest.EditAddFile), uv(1, 2, 3), vMaxInt, []byte("x")),             // n+int(length) overflows
-		cat(hdr(manifest.EditRaftPointer), uv(1, 2, 3, 4, 5, 6, 7), vOver11),          //
-		cat(hdr(manifest.EditRegion), uv(1), []byte{0}, vMinInt),                      //
-		cat(regionPrefix(), vLenPeers),                                                // probe: 512Ki peers, none present
-		cat(regionPrefix(), uv(1<<16)),                                                //
-		cat(regionPrefix(), vLenTiB),                                                  // fatal when unchecked
-		cat(regionPrefix(), vMax),                                                     // makeslice: cap out of range
-		cat(regionPrefix(), uv(3), uv(1, 2, 3)),                                       // truncated peer list
+		cat(hdr(manifest.EditLogPointer), vOver11),                           // pos += -11 -> negative index
+		cat(hdr(manifest.EditLogPointer), vOver10),                           //
+		cat(hdr(manifest.EditAddFile), uv(1, 2, 3), vMax, []byte("x")),       // readBytes int(length) == -1
+		cat(hdr(manifest.EditAddFile), uv(1, 2, 3), vMaxInt, []byte("x")),    // n+int(length) overflows
+		cat(hdr(manifest.EditRaftPointer), uv(1, 2, 3, 4, 5, 6, 7), vOver11), //
+		cat(hdr(manifest.EditRegion), uv(1), []byte{0}, vMinInt),             //
+		cat(regionPrefix(), vLenPeers),                                       // probe: 512Ki peers, none present
+		cat(regionPrefix(), uv(1<<16)),                                       //
+		cat(regionPrefix(), vLenTiB),                                         // fatal when unchecked
+		cat(regionPrefix(), vMax),                                            // makeslice: cap out of range
+		cat(regionPrefix(), uv(3), uv(1, 2, 3)),                              // truncated peer list
 		hdr(manifest.EditRegion), hdr(manifest.EditRaftPointer), hdr(manifest.EditAddFile), hdr(9), []byte(magic),
 	)
 	return s
@@ -513,10 +513,10 @@ var decFrame = &decoder{
 		}
 		s = append(s, cat(s[0], s[2]))
 		s = append(s,
-			le32(8<<20),                              // probe: 8 MiB frame, nothing follows
-			cat(le32(1<<30), []byte(magic)),          //
-			le32(math.MaxUint32),                     //
-			cat(le32(1<<16), hdr(2)),                 //
+			le32(8<<20),                     // probe: 8 MiB frame, nothing follows
+			cat(le32(1<<30), []byte(magic)), //
+			le32(math.MaxUint32),            //
+			cat(le32(1<<16), hdr(2)),        //
 			cat(le32(5), hdr(2)), cat(le32(4), hdr(2)), le32(0), []byte{1, 0, 0},
 		)
 		for _, p := range editPayloadSeeds()[len(seedEdits()):] {
